@@ -43,6 +43,13 @@ def delimiter_pinned(index):
 
 def build():
   units = c11.units() + [Unit('C01/lemma/concat', u_concat_lemma, [], expect_covers=['lemma/stated'])]
+  native = {'protocols.MetricLineReceiver.lineReceived': ['C01/lineReceived/decode/name'],
+            'protocols.MetricDatagramReceiver.datagramReceived': ['C01/datagramReceived/line/name'],
+            'protocols.MetricPickleReceiver.stringReceived': ['C01/stringReceived/entry/name']}
+  for u in units:
+    if u.name in native:
+      u.native_clauses = native[u.name]
+      u.replay = replay_c01
   return Property(
     'C01', units,
     syntactic=[Syntactic('C01/framing/delimiter_and_bases_pinned', delimiter_pinned,
@@ -57,3 +64,13 @@ def build():
       "A-PICKLE: loads(dumps(x, 2)) == x for plain data; the receiver contract is stated over the unpickled object",
       "well-formed = finite timestamp >= 0, value not NaN, name a str; no black/white list, MIN_TIMESTAMP_RESOLUTION = 0 (the admission rules are C12)",
     ])
+
+
+def replay_c01(model, ob):
+  import json
+  from pyvc.runner import run_native
+  rc, out, err = run_native('replay/c01_native.py', [json.dumps({'clause': ob.label})], timeout=600)
+  for line in out.splitlines():
+    if line.startswith('REPLAY-RESULT '):
+      return json.loads(line[len('REPLAY-RESULT '):])
+  return {'replay_error': (err or out)[-600:]}
